@@ -42,6 +42,9 @@ from fractions import Fraction
 
 EDOM, ERANGE = _errno.EDOM, _errno.ERANGE
 EPS = 2.0 ** -52
+# safety factor on every derived rounding-error bound (the bound itself: 2 ulp per libm call, propagated to
+# first order; glibc documents up to 4 ulp for cbrt, and g++ folds libm calls on literals with exact rounding)
+TOLK = 4.0
 INF = float("inf")
 NAN = float("nan")
 
@@ -327,6 +330,12 @@ class Prepared:
         raise ValueError("bad leaf %r" % (e,))
 
     def _norm(self, e):
+        try:
+            return self._norm1(e)
+        except (OverflowError, ZeroDivisionError):
+            raise Reject("interval arithmetic overflow")
+
+    def _norm1(self, e):
         """returns (repaired expr, lo, hi) with [lo,hi] enclosing every value the
         expression can take for inputs in their domains (outward widened)"""
         t = e[0]
@@ -359,6 +368,8 @@ class Prepared:
                 if al < 0.1:
                     m = max(abs(al), abs(ah))
                     a, al, ah = ["add", ["call", "fabs", a], ["num", "0.5"]], 0.5, m + 0.5
+                if ah > 1e30:  # keep base**3 far from overflow
+                    a, ah = ["min", a, ["num", "1.0e30"]], 1e30
                 if bl < -3.0 or bh > 3.0:
                     b, bl, bh = ["min", ["max", b, ["num", "-3.0"]], ["num", "3.0"]], max(bl, -3.0), min(bh, 3.0)
                 c = [al ** bl, al ** bh, ah ** bl, ah ** bh]
@@ -898,7 +909,7 @@ def data_value(P, x, digits=None):
         return float(ys[0]), 0.0
     v, scale = table_reference(xs, ys, P.interp, extrapolate, x, P._mcache.setdefault(digits, {}))
     k = 2000.0 if cubic else 16.0
-    return float(v), k * EPS * float(scale) + 1e-300
+    return float(v), TOLK * k * EPS * float(scale) + 1e-300
 
 
 # --------------------------------------------------------------------------- build
@@ -1082,6 +1093,8 @@ def collect_cases(strategy, n, seed):
             Prepared(case["prog"])
         except Reject:
             assume(False)
+        except Exception:
+            return  # harness error: reported by check_case in the real run
         out.append(case)
     try:
         collect()
